@@ -18,6 +18,15 @@ func init() {
 	vfRegister("VfRIB_t1r", VfRIB_t1r)
 	vfRegister("VfRIB_t2", VfRIB_t2)
 	vfRegister("VfRIB_tOrder", VfRIB_tOrder)
+	vfRegister("VfRIB_qEnum", VfRIB_qEnum)
+}
+
+// qEnum: next-hop operations whose encapsulate-/decapsulate-header fields carry ANY int32 enum
+// number (defined or not) against a pre-state with one optional next-hop (defined numbers) and
+// one optional group: undefined numbers are malformed content (C12: FAILED / clean error, no
+// panic, nothing changes), defined ones are payload (C01: installed value = last acknowledged).
+func VfRIB_qEnum() {
+	vfRIBRun(vfRunCfg{pre: vfPreCfg{nNH: 1, nNHG: 1, members: 1}, rich: true, fixLow: true, enums: true, steps: 1, members: 1, kinds: []int{vfKNH}})
 }
 
 var vfTopQ = []int{vfKV4, vfKMPLS}
